@@ -945,6 +945,8 @@ func onePathHistory(r *mon.Run, i int, dir string) {
 		return
 	}
 	quiet := dbMode{file: mode.file, dir: mode.dir}
+	reportMu.Lock()
+	defer reportMu.Unlock()
 	small := ops[:f.At+1]
 	if wantShrink(f.Key) {
 		small = shrink(ops, f.At, f.Key, func(c []pathOp) *failure {
@@ -1586,6 +1588,8 @@ func oneBeaconHistory(r *mon.Run, i int, dir string) {
 		return
 	}
 	quiet := dbMode{file: mode.file, dir: mode.dir}
+	reportMu.Lock()
+	defer reportMu.Unlock()
 	small := ops[:f.At+1]
 	if wantShrink(f.Key) {
 		small = shrink(ops, f.At, f.Key, func(c []beaconOp) *failure {
@@ -1711,6 +1715,10 @@ func devLimit(n int) int {
 }
 
 var shrinkBudget sync.Map // key -> *atomic.Int64
+
+// reportMu serialises shrink+report so that the violations mon prints (the
+// first three per key) are exactly the ones that were shrunk.
+var reportMu sync.Mutex
 
 // wantShrink: only the first few violations per key are shrunk (mon prints
 // three per key anyway).
